@@ -24,6 +24,11 @@ def n_part(name, profile, quick, thorough, selftest=48, extra_args=None):
             "count": {"quick": quick, "thorough": thorough}, "selftest_count": selftest}
 
 
+def t_part(name, family, profile, quick, thorough, selftest=200):
+    return {"name": name, "engine": "T", "bin": "vsched", "args": ["--family", family, "--profile", profile],
+            "count": {"quick": quick, "thorough": thorough}, "selftest_count": selftest}
+
+
 def s_part(name, profile, variants, quick, thorough, selftest=300):
     return {"name": name, "engine": "S", "bin": "vsim", "args": ["--profile", profile, "--variants", variants],
             "count": {"quick": quick, "thorough": thorough}, "selftest_count": selftest}
@@ -60,8 +65,9 @@ PLAN = {
     "C06": {
         "level": "fault_enumeration",
         "rule": "sequential part: lifetimes with N in 0..6, 0..N+2 matching calls interleaved with 0-3 non-matching calls, through 4 fake! sites (with/without when, unit, assign+when), exit by drop or injected panic; concurrent part: see engine T; distinct = (site, N, matching, rejected, exit path) tuples",
-        "assumptions": [A_N],
-        "parts": [n_part("N-sequential-counting", "C06", 1600, 160000, selftest=64, extra_args=["--family", "count"])],
+        "assumptions": [A_N, A_T],
+        "parts": [n_part("N-sequential-counting", "C06", 1600, 160000, selftest=64, extra_args=["--family", "count"]),
+                  t_part("T-concurrent-counting", "count", "C06", 12000, 2000000)],
     },
     "C07": {
         "level": "fault_enumeration",
@@ -97,11 +103,18 @@ PLAN = {
         "parts": [n_part("N-register-probe", "C13", 800, 80000, selftest=40, extra_args=["--family", "probe"]),
                   s_part("S-write-sets", "C13", "x86_64_linux,aarch64_linux", 6000, 600000)],
     },
+    "C04": {
+        "level": "exploration",
+        "rule": "2-4 simulated threads, each 1-4 rounds of injector (thread-specific fake on a shared real function, 1-3 calls) or preventer (1-3 calls), released by drop or by panic; every Mutex lock attempt/unlock, every explicit yield between harness steps, spawn and join is a scheduling point decided by a seeded scheduler (uniform random, sticky with rare preemptions, PCT-style priorities); distinct = distinct (thread, point kind) sequences (interleavings) + scenario classes",
+        "assumptions": [A_T],
+        "parts": [t_part("T-exclusion", "excl", "C04", 12000, 2000000)],
+    },
     "C05": {
         "level": "fault_enumeration",
         "rule": "scripted body (installs of mixed kinds incl. counted fakes, calls, refusals caught in-body) with one crash point per lifetime: injected user panic at any position, propagating refusal (signature, null, boolean on non-bool, async type, ENOMEM on every RWX mmap, EACCES on mprotect), fake rejecting arguments, over-call, 0-3 unsatisfied expectations at exit alone or with an in-flight panic; 1-50 consecutive lifetimes per process; after each: bytes+behaviour original, <=1 panic, fresh thread uses a new injector (watchdog); distinct = (crash kind, pending, steps, lifetimes) tuples",
-        "assumptions": [A_N],
-        "parts": [n_part("N-crash-points", "C05", 1600, 160000, selftest=64, extra_args=["--family", "crash"])],
+        "assumptions": [A_N, A_T],
+        "parts": [n_part("N-crash-points", "C05", 1600, 160000, selftest=64, extra_args=["--family", "crash"]),
+                  t_part("T-handover-after-panic", "handover", "C05", 6000, 1000000)],
     },
     "C11": {
         "level": "fault_enumeration",
